@@ -7,6 +7,31 @@ CTX["legacy"] = CTX["v0"]
 NAMES = ["default", "v0", "legacy"]
 
 
+KEYS = ["START", "STOP", "STUB", "SSTART", "SSTOP", "SSTUB"]
+
+
+def cx_of(name):
+    """the context of a receiver name: a shipped one or "cx:START:STOP:STUB:SSTART:SSTOP:SSTUB" (any configured context)"""
+    if name.startswith("cx:"):
+        return dict(zip(KEYS, [int(x) for x in name[3:].split(":")]))
+    return CTX[name]
+
+
+def random_context(rng):
+    """a context inside the domain of the property (Gstuff.tla ValidCx): escape codes differ from the markers; bytes drawn from both
+    halves of the byte range, boundary values preferred (0, 1, 0x7F, 0x80, 0xFF: the context fields are plain char)"""
+    pool = [0, 1, 2, 10, 13, 27, 0x7D, 0x7E, 0x7F, 0x80, 0x81, 0xC0, 0xDB, 0xFE, 0xFF]
+    def pick(avoid):
+        while True:
+            b = rng.choice(pool) if rng.random() < 0.7 else rng.randrange(256)
+            if b not in avoid: return b
+    start = pick([]); stop = start if rng.random() < 0.35 else pick([start])
+    stub = pick([start, stop])
+    sstart = pick([start, stop]); sstop = sstart if stop == start else pick([start, stop, sstart])
+    sstub = pick([start, stop, sstart, sstop])
+    return "cx:" + ":".join(str(x) for x in (start, stop, stub, sstart, sstop, sstub))
+
+
 def build(ctx):
     R = core.REPO
     return ctx.cxx("drv_gstuff", ["drv_gstuff.cpp", "drv_gstuff_v1.c", R + "/igris/protocols/gstuff.cpp",
@@ -35,7 +60,7 @@ def esc(cx, b):
 
 
 def frame(name, p):
-    cx = CTX[name]
+    cx = cx_of(name)
     out = [cx["START"]]
     for b in p: out += esc(cx, b)
     out += esc(cx, crc8(p))
@@ -44,7 +69,7 @@ def frame(name, p):
 
 
 def special_bytes(name):
-    return sorted(set(CTX[name].values()))
+    return sorted(set(cx_of(name).values()))
 
 
 def rand_payload(rng, name, maxlen):
